@@ -32,6 +32,10 @@ type step struct {
 	Repo string `json:"repo"`
 	Name string `json:"name"`
 	B    int    `json:"bundle"` // index into the repo's bundles
+	// How a set is made: "" a fresh Label object (what the CLI does); "reuse" the caller keeps one Label object per
+	// name and points it at bundle after bundle; "get-set" the caller resolves the label into an object and then
+	// moves that same object to the bundle
+	How string `json:"how,omitempty"`
 }
 
 type params struct {
@@ -86,7 +90,7 @@ func gen08(seed int64, tier string) []drv.Case {
 			if r.Intn(4) == 0 {
 				op = "delete"
 			}
-			ss = append(ss, step{Op: op, Repo: repos[r.Intn(len(repos))], Name: names[r.Intn(len(names))], B: r.Intn(3)})
+			ss = append(ss, step{Op: op, Repo: repos[r.Intn(len(repos))], Name: names[r.Intn(len(names))], B: r.Intn(3), How: []string{"", "", "reuse", "get-set"}[r.Intn(4)]})
 		}
 		p := params{Steps: ss, NameCls: cls, DelNil: r.Intn(2) == 0, Seed: r.Int63()}
 		cs = append(cs, drv.Case{ID: fmt.Sprintf("%s-%d", cls, i), Class: cls, Params: drv.MustJSON(p)})
@@ -263,13 +267,35 @@ func run08(c drv.Case, res *drv.Result) {
 		return true
 	}
 
+	kept := map[string]*core.Label{}
 	for i, s := range p.Steps {
 		before := snapshot(env)
 		used[s.Repo][s.Name] = true
 		var err error
 		switch s.Op {
 		case "set":
-			err = env.SetLabel(nil, s.Repo, s.Name, bundles[s.Repo][s.B])
+			switch s.How {
+			case "reuse":
+				l := kept[s.Repo+"/"+s.Name]
+				if l == nil {
+					l = coreh.NewLabel(s.Name)
+					kept[s.Repo+"/"+s.Name] = l
+				}
+				err = env.SetLabelObject(nil, s.Repo, bundles[s.Repo][s.B], l)
+				res.Stat("sets_through_a_kept_label_object", 1)
+			case "get-set":
+				l := coreh.NewLabel(s.Name)
+				if _, live := model[s.Repo][s.Name]; live {
+					if gerr := env.GetLabelObject(nil, s.Repo, l); gerr != nil {
+						res.Violate("get-fails", nameClass(s.Name), "step %d: resolving live label %q in %s fails: %v", i, s.Name, s.Repo, gerr)
+						return
+					}
+					res.Stat("sets_after_get_on_the_same_object", 1)
+				}
+				err = env.SetLabelObject(nil, s.Repo, bundles[s.Repo][s.B], l)
+			default:
+				err = env.SetLabel(nil, s.Repo, s.Name, bundles[s.Repo][s.B])
+			}
 			if err == nil {
 				model[s.Repo][s.Name] = bundles[s.Repo][s.B]
 				res.Stat("sets_accepted", 1)
